@@ -57,6 +57,12 @@ def dt_seconds(y, mo, d, h=0, mi=0, s=0) -> int:
     return int((pydt.datetime(y, mo, d, h, mi, s) - pydt.datetime(1, 1, 1)).total_seconds())
 
 
+def tz_lex(tz) -> str:
+    if tz is None:
+        return ''
+    return ('-' if tz < 0 else '+') + '%02d:%02d' % divmod(abs(tz), 60)
+
+
 def enc_item(it) -> str:
     t = it[0]
     if t in 'nsua':
@@ -72,12 +78,12 @@ def enc_item(it) -> str:
         return f'b:{1 if it[1] else 0}'
     if t == 'q':
         return f'q:{enc_cps(it[1])}/{enc_cps(it[2])}/{enc_cps(it[3])}'
-    if t == 'D':
-        return f'D:{dt_seconds(*it[1])}'
-    if t == 'T':
-        return f'T:{dt_seconds(*it[1])}'
-    if t == 't':
-        return f't:{dt_seconds(2000, 1, 1, *it[1])}'
+    if t in 'DTt':
+        tz = it[2] if len(it) > 2 else None
+        tzs = '_' if tz is None else str(tz)
+        if t == 't':
+            return f't:2000/{dt_seconds(2000, 1, 1, *it[1])}/{tzs}'
+        return f'{t}:{it[1][0]}/{dt_seconds(*it[1])}/{tzs}'
     if t == 'P':
         return f'P:{it[1]}/{it[2]}'
     if t in 'YS':
@@ -188,12 +194,14 @@ def build_values(case):
             return dt.AnyURI(it[1])
         if t == 'q':
             return dt.QName(it[1], (it[2] + ':' + it[3]) if it[2] else it[3])
-        if t == 'D':
-            return dt.Date10(*it[1])
-        if t == 'T':
-            return dt.DateTime10(*it[1])
-        if t == 't':
-            return dt.Time(*it[1])
+        if t in 'DTt':
+            tz = it[2] if len(it) > 2 else None
+            v = it[1]
+            if t == 'D':
+                return dt.Date10.fromstring('%04d-%02d-%02d' % tuple(v) + tz_lex(tz))
+            if t == 'T':
+                return dt.DateTime10.fromstring('%04d-%02d-%02dT%02d:%02d:%02d' % tuple(v) + tz_lex(tz))
+            return dt.Time.fromstring('%02d:%02d:%02d' % tuple(v) + tz_lex(tz))
         if t == 'P':
             return dt.Duration(months=it[1], seconds=it[2])
         if t == 'Y':
@@ -301,7 +309,27 @@ def rand_item(rng, t=None):
         return ('i', rng.choice([1, -1]) * rng.randrange(0, 2 ** rng.choice([4, 30, 54, 70])))
     if t == 'd' and rng.random() < 0.3:
         return ('d', str(Decimal(rng.randrange(-10 ** 6, 10 ** 6)) / (10 ** rng.randrange(0, 8))))
+    if t in 'DTt':
+        return boundary_item(rng, t) if rng.random() < 0.5 else (t, rng.choice(POOLS[t]), rng.choice(TZS))
     return pool_item(t, rng.choice(POOLS[t]))
+
+
+TZS = [None, None, 0, 60, -60, 300, -300, 330, -570, 720, -720, 840, -840]
+
+
+def boundary_item(rng, t, year=None):
+    """a date / dateTime next to a year boundary (or a time next to midnight) with a timezone up to +-14:00"""
+    tz = rng.choice(TZS)
+    if t == 't':
+        return ('t', rng.choice([(0, 0, 0), (0, 30, 0), (1, 0, 0), (10, 0, 0), (13, 59, 59), (14, 0, 0), (23, 0, 0),
+                                 (23, 59, 59)]), tz)
+    y = year if year is not None else rng.choice([1999, 2000, 2001, 2002, 2003])
+    md = rng.choice([(12, 31), (12, 31), (1, 1), (1, 1), (12, 30), (1, 2), (6, 15)])
+    if t == 'D':
+        return ('D', (y, *md), tz)
+    hms = rng.choice([(0, 0, 0), (1, 0, 0), (4, 0, 0), (10, 0, 0), (13, 59, 59), (14, 0, 1), (20, 0, 0), (23, 0, 0),
+                      (23, 59, 59)])
+    return ('T', (y, *md, *hms), tz)
 
 
 def rand_seq(rng, maxlen=3, node_p=0.15, types=None):
@@ -345,6 +373,11 @@ def corpus():
         c.append({'k': 'G', 'm': 'v2c', 'op': op, 'l': [('n', 'a'), ('n', 'b')], 'r': [('b', True)]})
         c.append({'k': 'V', 'm': 'v2', 'op': op, 'l': [('i', 2 ** 53 + 1)], 'r': [('f', 2.0 ** 53)]})
         c.append({'k': 'V', 'm': 'v2', 'op': op, 'l': [('s', 'a')], 'r': [('q', '', '', 'a')]})
+        c.append({'k': 'V', 'm': 'v2', 'op': op, 'l': [('T', (2000, 12, 31, 23, 0, 0), -300)],
+                  'r': [('T', (2001, 1, 1, 1, 0, 0), None)]})
+        c.append({'k': 'G', 'm': 'v31', 'op': op, 'l': [('T', (2001, 1, 1, 1, 0, 0), None)],
+                  'r': [('T', (2000, 12, 31, 23, 0, 0), -300)]})
+        c.append({'k': 'V', 'm': 'v2', 'op': op, 'l': [('D', (2000, 12, 31), -840)], 'r': [('D', (2001, 1, 1), 840)]})
         c.append({'k': 'V', 'm': 'v2', 'op': op, 'l': [('i', 16777217)], 'r': [('g', 16777216.0)]})
         c.append({'k': 'G', 'm': 'v2', 'op': op, 'l': [('i', 2 ** 53 + 1)], 'r': [('f', 2.0 ** 53)]})
         c.append({'k': 'V', 'm': 'v2', 'op': op, 'l': [('g', 2 - 2 ** -22)], 'r': [('g', 2 - 2 ** -23)]})
@@ -405,6 +438,15 @@ def gen_cases(run: Run):
             a, b = b, a
         m = rng.choice(['v2c', 'v2', 'v31'])
         cases.append({'k': rng.choice(['V', 'V', 'G']), 'm': m, 'op': rng.choice(OPS), 'l': [a], 'r': [b]})
+    # (2c) dates / dateTimes across a year boundary (adjacent years, and 2 / 3 years apart) and times around
+    #      midnight, with none / one / both timezones up to +-14:00
+    for _ in range(run.scale(4000, 40000)):
+        t = rng.choice(['T', 'T', 'D', 'D', 't'])
+        y = rng.choice([1999, 2000, 2001])
+        a = boundary_item(rng, t, y)
+        b = boundary_item(rng, t, y + rng.choice([0, 1, 1, 1, -1, 2, 3]))
+        m = rng.choice(['v2c', 'v2', 'v31', 'v31'])
+        cases.append({'k': rng.choice(['V', 'G']), 'm': m, 'op': rng.choice(OPS), 'l': [a], 'r': [b]})
     # (3) sequences of length 0..3 (atoms of any type, element nodes)
     for _ in range(run.scale(15000, 200000)):
         m = rng.choice(MODES)
@@ -573,6 +615,9 @@ def search(run: Run):
     sub = Run(PROP, run.tier, run.seed)
     cases = []
     vals = [pool_item(t, v) for t in TYPES for v in POOLS[t][: (6 if run.quick else 40)]]
+    vals += [('T', (2000, 12, 31, 23, 0, 0), -300), ('T', (2001, 1, 1, 1, 0, 0), None), ('T', (2001, 1, 1, 1, 0, 0), 0),
+             ('D', (2000, 12, 31), -840), ('D', (2001, 1, 1), 840), ('D', (2001, 1, 1), None), ('t', (23, 0, 0), -300),
+             ('t', (1, 0, 0), None)]
     for m in MODES:
         for a in vals:
             for b in vals:
@@ -625,7 +670,7 @@ REP_ITEMS = [('i', 1), ('d', '1.5'), ('f', 2.0), ('g', 2.0), ('s', 'a'), ('u', '
              ('q', '', '', 'a'), ('D', (2000, 1, 1)), ('T', (2000, 1, 1, 0, 0, 0)), ('t', (0, 0, 0)), ('P', 1, 1),
              ('Y', 1), ('S', 1), ('x', (65,)), ('y', (65,))]
 REP_LEAN = ['.int 1', '.dec (3 / 2)', '.dbl (.fin 2)', '.flt (.fin 2)', '.str [97]', '.ua [97]', '.bool true',
-            '.uri [97]', '.qn [] [] [97]', '.date 5', '.dtm 5', '.time 5', '.dur 1 1', '.ymd 1', '.dtd 1',
+            '.uri [97]', '.qn [] [] [97]', '.date ⟨2000, 5, none⟩', '.dtm ⟨2000, 5, none⟩', '.time ⟨2000, 5, none⟩', '.dur 1 1', '.ymd 1', '.dtd 1',
             '.hex [65]', '.b64 [65]']
 
 
@@ -679,7 +724,7 @@ def body(run: Run) -> int:
     run.assumptions += [
         'untypedAtomic / node string values are drawn from a declared lexical fragment (plain decimal literals, NaN, '
         'INF, -INF, true/false, words); outside it the driver answers UNSUPPORTED and the case is skipped (counted)',
-        'dates/times have no timezone and years 1..9999 (instant order; timezone arithmetic is C11)',
+        'dates/times: years 1..9999, explicit timezone optional (missing = UTC: no implicit timezone is set in the context; C11 finding F11n), payload = (local year, local seconds, offset) computed by the harness with Python datetime',
         'durations have whole seconds; xs:float values are binary32-representable',
         'default collation = Unicode codepoint collation']
     run.stats.extra['tables'] = translate_tables(run)
